@@ -118,7 +118,7 @@ POS = [
     # sink (back-pressure), instances parked in a blocking Report: _slow_small = 2x1 with two-step writes,
     # _fast = 2x2 with an instantaneous sink, the others 2x2 / 3x2 with two-step writes
     ("ShutdownMC", "Shutdown_exh_slow_small.cfg", True), ("ShutdownMC", "Shutdown_exh_drop_slow_small.cfg", True),
-    ("ShutdownMC", "Shutdown_exh_fast.cfg", False), ("ShutdownMC", "Shutdown_exh_drop_fast.cfg", False),
+    ("ShutdownMC", "Shutdown_exh_fast.cfg", True), ("ShutdownMC", "Shutdown_exh_drop_fast.cfg", False),
     ("ShutdownMC", "Shutdown_exh.cfg", False), ("ShutdownMC", "Shutdown_exh_drop.cfg", False),
     ("ShutdownMC", "Shutdown_exh_q2.cfg", False), ("ShutdownMC", "Shutdown_exh_big.cfg", False),
     # once told to stop the process ends: thanks to the timers also with a sink that blocks for ever or an
@@ -138,7 +138,7 @@ NEG = [
     ("AggregatorMC", "Aggregator_neg_nodrain.cfg", True), ("AggregatorMC", "Aggregator_neg_noflush.cfg", True),
     ("AggregatorMC", "Aggregator_neg_nocount.cfg", True), ("AggregatorMC", "Aggregator_neg_late.cfg", False),
     # the code as found: phout dropped the error of its final flush / of Close, jsonEncoder.Flush bufio's error
-    ("AggregatorMC", "Aggregator_neg_swallow_final.cfg", True), ("AggregatorMC", "Aggregator_neg_swallow_close.cfg", False),
+    ("AggregatorMC", "Aggregator_neg_swallow_final.cfg", True), ("AggregatorMC", "Aggregator_neg_swallow_close.cfg", True),
     ("AggregatorMC", "Aggregator_neg_swallow_tick.cfg", True), ("AggregatorMC", "Aggregator_neg_memory_reach.cfg", False),
     # the flush tick consumes the drop counter (seed C06-9)
     ("AggregatorMC", "Aggregator_neg_tickresets.cfg", False),
@@ -148,13 +148,13 @@ NEG = [
     # a first signal while the tasks of a FAILED run are awaited ends the process (seed C06-6)
     ("ShutdownMC", "Shutdown_neg_errsig.cfg", True),
     # every exempt cause of a forced exit really loses data (the list in ExitComplete is minimal) ...
-    ("ShutdownMC", "Shutdown_neg_early.cfg", True), ("ShutdownMC", "Shutdown_neg_untrapped.cfg", False),
-    ("ShutdownMC", "Shutdown_neg_second.cfg", True), ("ShutdownMC", "Shutdown_neg_timeout.cfg", False),
+    ("ShutdownMC", "Shutdown_neg_early.cfg", True), ("ShutdownMC", "Shutdown_neg_untrapped.cfg", True),
+    ("ShutdownMC", "Shutdown_neg_second.cfg", True), ("ShutdownMC", "Shutdown_neg_timeout.cfg", True),
     # ... an unforced complete exit of a run whose instance was parked by back-pressure at the signal is reachable
     ("ShutdownMC", "Shutdown_neg_bpreach.cfg", False),
     # without the timers a stopped process may never end (instance parked for ever in a blocking Report; a sink
     # that blocks for ever)
-    ("ShutdownMC", "Shutdown_neg_live_notimeout.cfg", False), ("ShutdownMC", "Shutdown_neg_live_notimeout_slow.cfg", False),
+    ("ShutdownMC", "Shutdown_neg_live_notimeout.cfg", True), ("ShutdownMC", "Shutdown_neg_live_notimeout_slow.cfg", False),
     ("PoolAggMC", "PoolAgg_neg_early.cfg", True),
     # out of ammo during the start-up calls runCancel() instead of instanceStartCancel() (seed C06-8)
     ("PoolAggMC", "PoolAgg_neg_ooa.cfg", True), ("PoolAggMC", "PoolAgg_neg_ooa_start.cfg", False),
